@@ -93,7 +93,7 @@ theorem mem_pickType_ptype (t : STab) (pr pc ty f : Nat) (h : f ∈ t.pickType p
 theorem rowSum_row_ne (t : STab) (a b i : Nat) (h : i ≠ b) : (t.rowSum a b).row i = t.row i := by
   simp [rowSum, upd, h]
 
-theorem foldl_rowSum_row (pr : Nat) (l : List Nat) (t : STab) (i : Nat) (hi : i ∉ l) :
+theorem foldl_rowSum_row_ss (pr : Nat) (l : List Nat) (t : STab) (i : Nat) (hi : i ∉ l) :
     (l.foldl (fun acc k => acc.rowSum pr k) t).row i = t.row i := by
   induction l generalizing t with
   | nil => rfl
@@ -206,7 +206,7 @@ theorem processTwo_ptype (t t' : STab) (pr pc ty1 ty2 : Nat) (hpc : pc < t.n) (h
   have rowk : ∀ k, k ∉ l1 → k ∉ l2 →
       (l2.foldl (fun acc i => acc.rowSum (pr + 1) i) (l1.foldl (fun acc i => acc.rowSum pr i) t2)).row k = t2.row k := by
     intro k h1 h2
-    rw [foldl_rowSum_row (pr + 1) l2 _ k h2, foldl_rowSum_row pr l1 t2 k h1]
+    rw [foldl_rowSum_row_ss (pr + 1) l2 _ k h2, foldl_rowSum_row_ss pr l1 t2 k h1]
   rw [e]
   constructor
   · rw [norm_ptype _ pr pc (by rw [nf]; exact hp) (by rw [nf]; exact hpc), ptype_congr _ _ pr pc (rowk pr npr1 npr2)]
